@@ -108,6 +108,10 @@ Definition check_all_eq (cs : list eq_case) := tidy (check_all_from check_eq_cas
 Definition eq_mismatches (cs : list eq_case) : N := N.of_nat (List.length (check_all_from check_eq_case 0%N cs)).
 Definition outside_guard_violations (cs : list eq_case) : N :=
   fold_left (fun a c => (a + unguarded_violations (ec_refs c) (ec_obs c) (ec_hash c))%N) cs 0%N.
+(* cases whose references are not consistent (same type and data word, different objects): there the laws
+   are not judged; expected 0 *)
+Definition inconsistent_cases (cs : list eq_case) : N :=
+  N.of_nat (List.length (filter (fun c => negb (refs_consistent (ec_refs c))) cs)).
 Definition guarded_triples (cs : list eq_case) : N :=
   fold_left (fun a c => (a + N.of_nat (List.length (filter trans_guard (map r_obj (ec_refs c)))))%N) cs 0%N.
 
